@@ -331,6 +331,79 @@ class Policy:
         return self.rng.choice(opts)
 
 
+class ScriptPolicy(Policy):
+    """replays an explicit list of choices; when it is exhausted (or a scripted choice is not available) falls
+    back to: run ready handles first, then the first pending external.  `points` records, for every decision
+    taken after the script ended, how many options there were (used by the exhaustive enumeration)."""
+
+    def __init__(self, script, quiescent_only=True):
+        super().__init__()
+        self.script = [tuple(x) if not isinstance(x, tuple) else x for x in script]
+        self.i = 0
+        self.bad = False
+
+    def choose(self, world, nhandles, ready, gates, timers):
+        if self.i < len(self.script):
+            ch = self.script[self.i]
+            self.i += 1
+            ch = (ch[0],) + tuple(list(x) if isinstance(x, (list, tuple)) else x for x in ch[1:])
+            if ch[0] == 'step' and ready:
+                return ('step',)
+            if ch[0] == 'gate' and any(g.key == list(ch[1]) for g in gates):
+                return ('gate', list(ch[1]))
+            if ch[0] == 'timer' and timers:
+                return ('timer',)
+            if ch[0] == 'cancel':
+                return ('cancel', ch[1])
+            if ch[0] == 'stop':
+                return ('stop',)
+            self.bad = True
+        if ready:
+            return ('step',)
+        opts = [('gate', g.key) for g in gates] + ([('timer',)] if timers else [])
+        return opts[0] if opts else ('stop',)
+
+
+def options_at_quiescence(gates, timers):
+    return [('gate', g.key) for g in gates] + ([('timer',)] if timers else [])
+
+
+class EnumPolicy(Policy):
+    """quiescent-point enumeration: run to quiescence, then take option number idx[k] at the k-th decision
+    point (0 beyond the prefix) and remember how many options there were."""
+
+    def __init__(self, idx):
+        super().__init__()
+        self.idx = list(idx)
+        self.k = 0
+        self.widths = []
+
+    def choose(self, world, nhandles, ready, gates, timers):
+        if ready:
+            return ('step',)
+        opts = options_at_quiescence(gates, timers)
+        if not opts:
+            return ('stop',)
+        j = self.idx[self.k] if self.k < len(self.idx) else 0
+        self.k += 1
+        self.widths.append(len(opts))
+        return opts[min(j, len(opts) - 1)]
+
+
+def enumerate_quiescent(spec, limit=40, **kw):
+    """all quiescent-point schedules of a program (depth-first), at most `limit` of them"""
+    out, stack = [], [[]]
+    while stack and len(out) < limit:
+        pre = stack.pop()
+        pol = EnumPolicy(pre)
+        tr = run_program(spec, pol, **kw)
+        out.append(tr)
+        for k in range(len(pre), len(pol.widths)):
+            for j in range(1, pol.widths[k]):
+                stack.append(pre + [0] * (k - len(pre)) + [j])
+    return out, (not stack)
+
+
 def run_program(spec, policy, n_runs=1, inputs=None, drain=True, world=None, keep_world=False):
     """returns trace dict: {graph, cfg, events: [...], result(s), verdict}"""
     w = world or World(spec)
@@ -345,6 +418,7 @@ def run_program(spec, policy, n_runs=1, inputs=None, drain=True, world=None, kee
         if w.obs:
             events.append({'k': 'init', 'obs': w.take_obs()})
         nh = 0
+        choices = []
         verdict = None
         done_seen = set()
         while nh < MAX_HANDLES:
@@ -355,6 +429,7 @@ def run_program(spec, policy, n_runs=1, inputs=None, drain=True, world=None, kee
                 verdict = 'finished'
                 break
             ch = policy.choose(w, nh, ready, gates, timers)
+            choices.append(list(ch))
             if ch[0] == 'stop' or (ch[0] == 'step' and not ready):
                 verdict = 'deadlock'
                 break
@@ -403,7 +478,7 @@ def run_program(spec, policy, n_runs=1, inputs=None, drain=True, world=None, kee
             'live_gates_at_end': [g.key for g in w.live_gates()],
             'live_timers_at_end': len(loop.live_timers()),
             'verdict': verdict, 'results': [list(c.result) if c.result else None for c in ctxs],
-            'lock_slow_path': loop.lock_slow_path, 'handles': nh,
+            'lock_slow_path': loop.lock_slow_path, 'handles': nh, 'choices': choices,
         }
         return res
     finally:
